@@ -572,8 +572,10 @@ func RunScenario(s *Scenario, tw *trace.Writer) (sum trace.M, err error) {
 	sim.W.Sink = func(ev trace.M) { emit(ev) }
 	sim.W.ResetSeq()
 	installHook(sim, emit)
+	frameSnap(sim, "pre", "pass") // C18 (x_frame.go)
 	res, rerr, pan := sim.Schedule()
 	removeHook()
+	frameSnap(sim, "post", "pass") // C18
 	if pan != "" {
 		emit(trace.M{"e": "Panic", "where": "Schedule", "msg": pan})
 	}
